@@ -4,6 +4,7 @@ import (
 	"go/constant"
 	"go/token"
 	"go/types"
+	"strings"
 
 	"golang.org/x/tools/go/ssa"
 )
@@ -260,4 +261,100 @@ func roLookup(t *Term, asg Asg) (entry ssa.Value, present, decided bool) {
 	}
 	e, has := tab.Entries[k.ExactString()]
 	return e, has, true
+}
+
+// constObjectOf: a package-level *strings.Replacer or *regexp.Regexp that the package initialiser builds once (from
+// strings.NewReplacer / regexp.MustCompile) and nothing else assigns: an immutable object whose methods are safe for
+// concurrent use and keep no state between calls -- a constant of the program, like a read-only dispatch table.
+// Returns the call that builds it, or nil.
+func constObjectOf(gl *ssa.Global) *ssa.Call {
+	if gl == nil || gl.Pkg == nil {
+		return nil
+	}
+	ts := gl.Type().String()
+	if !strings.Contains(ts, "*strings.Replacer") && !strings.Contains(ts, "*regexp.Regexp") {
+		return nil
+	}
+	var build *ssa.Call
+	n := 0
+	for _, m := range gl.Pkg.Members {
+		f, ok := m.(*ssa.Function)
+		if !ok {
+			continue
+		}
+		for _, g := range withClosures(f) {
+			allInstrs(g, func(_ *ssa.BasicBlock, in ssa.Instruction) {
+				st, ok := in.(*ssa.Store)
+				if !ok || st.Addr != ssa.Value(gl) {
+					return
+				}
+				n++
+				if g.Name() != "init" || g.Synthetic == "" {
+					n += 100 // assigned outside the package initialiser
+					return
+				}
+				if call, isCall := st.Val.(*ssa.Call); isCall {
+					if nm := calleeName(call.Common()); nm == "strings.NewReplacer" || nm == "regexp.MustCompile" {
+						build = call
+					}
+				}
+			})
+		}
+	}
+	// methods of the module's types may assign it too
+	if n != 1 || build == nil {
+		return nil
+	}
+	return build
+}
+
+// replacerPairs: call is `R.Replace(x)` on a constant *strings.Replacer R (constObjectOf) built from constant
+// (old, new) pairs: the pairs in the order written, and the replaced text x. A Replacer substitutes in one pass over the
+// text (what a replacement produced is never rewritten), so no order of application has to be argued.
+func replacerPairs(call *ssa.Call) (pairs [][2]string, x ssa.Value, ok bool) {
+	if call == nil || calleeName(call.Common()) != "(*strings.Replacer).Replace" || len(call.Call.Args) != 2 {
+		return nil, nil, false
+	}
+	ld, isLd := call.Call.Args[0].(*ssa.UnOp)
+	if !isLd || ld.Op != token.MUL {
+		return nil, nil, false
+	}
+	gl, isG := ld.X.(*ssa.Global)
+	if !isG {
+		return nil, nil, false
+	}
+	build := constObjectOf(gl)
+	if build == nil || calleeName(build.Common()) != "strings.NewReplacer" || len(build.Call.Args) != 1 {
+		return nil, nil, false
+	}
+	sl, isSl := build.Call.Args[0].(*ssa.Slice)
+	if !isSl {
+		return nil, nil, false
+	}
+	al, isAl := sl.X.(*ssa.Alloc)
+	if !isAl {
+		return nil, nil, false
+	}
+	texts := map[int64]string{}
+	for _, st := range storesToArray(al) {
+		ia := st.Addr.(*ssa.IndexAddr)
+		i, isI := constIntOf(ia.Index)
+		s, isS := constString(st.Val)
+		if !isI || !isS {
+			return nil, nil, false
+		}
+		texts[i] = s
+	}
+	if len(texts) == 0 || len(texts)%2 != 0 {
+		return nil, nil, false
+	}
+	for i := 0; i < len(texts); i += 2 {
+		o, ok1 := texts[int64(i)]
+		n, ok2 := texts[int64(i+1)]
+		if !ok1 || !ok2 {
+			return nil, nil, false
+		}
+		pairs = append(pairs, [2]string{o, n})
+	}
+	return pairs, call.Call.Args[1], true
 }
